@@ -50,7 +50,7 @@ META = {
         "the textual trace printed by simgrid-mc is produced by Transition::to_string() of the transitions of the path",
         "the VM only makes valid S4U calls (guards on unlock / cond wait / binary-semaphore release / join / create)",
     ],
-    "ready": False,
+    "ready": True,
 }
 
 REDUCTIONS = ["dpor", "sdpor", "odpor"]
